@@ -878,6 +878,17 @@ def history_run(s, lband, ntheta, seed, order):
         d = float(np.max(np.abs(rec - sum(a[k] * Y[k] for k in keys))))
         if d > 1e-10:
             fails.append((pos, name, "sYlm_reconstruct vs sum a_lm Y_lm(angles passed)", d))
+        # synthesis and decomposition are linear: a field 1e-10 or 1e+9 times as large (Psi4 at a large radius, code
+        # units) is handled like the O(1) one (absolute thresholds such as np.isclose(x, 0) must not drop modes)
+        for fac in (1e-10, 1e9):
+            rs_ = maths.sYlm_reconstruct(s, lband, {k: fac * a[k] for k in keys}, TH, PH)
+            d = float(np.max(np.abs(rs_ / fac - rec)))
+            if d > 1e-10:
+                fails.append((pos, name, "sYlm_reconstruct(%g * a) / %g vs sYlm_reconstruct(a)" % (fac, fac), d))
+            cs_ = maths.sYlm_coefficients(s, lband, fac * g, TH, PH, w, dph)
+            d = float(max(abs(cs_[k] / fac - np.sum(np.conj(Y[k]) * g * w * dph)) for k in keys))
+            if d > 1e-10 * float(np.sum(np.abs(w)) * dph):
+                fails.append((pos, name, "sYlm_coefficients(%g * f) / %g vs the direct sum" % (fac, fac), d))
         co = maths.sYlm_coefficients(s, lband, g, TH, PH, w, dph)
         d = float(max(abs(co[k] - np.sum(np.conj(Y[k]) * g * w * dph)) for k in keys))
         if d > 1e-10 * float(np.sum(np.abs(w)) * dph):
